@@ -30,6 +30,7 @@ HShapes == {
   <<"frac", JFlt("0.5")>>, <<"huge", Raw("1e400")>>, <<"neghuge", Raw("-1e400")>>, <<"bigint", Raw("123456789012345678901234567890")>>,
   <<"empty-str", JStr("")>>, <<"iri", JStr("https://example.com/x")>>, <<"word", JStr("not an iri")>>, <<"dash", JStr("-")>>,
   <<"quoted-json", JStr("{\"type\":\"Note\"}")>>,
+  <<"pseudo-iri", JStr("IRI")>>, <<"pseudo-items", JStr("ItemCollection")>>, <<"pseudo-iris", JStr("IRICollection")>>,    \* the library's internal pseudo type names
   <<"empty-arr", JArr(<<>>)>>, <<"arr-str", JArr(<<JStr("https://example.com/a"), JStr("b")>>)>>, <<"arr-mixed", JArr(<<JNum(1), [j |-> "null"], JBool(TRUE), JArr(<<>>), JObj(<<>>)>>)>>,
   <<"arr-obj", JArr(<<JObj(<<Mem("type", JStr("Note")), Mem("id", JStr("https://example.com/n"))>>), JObj(<<Mem("type", JNum(5))>>)>>)>>,
   <<"arr-nested", JArr(<<JArr(<<JArr(<<JStr("x")>>)>>)>>)>>,
@@ -44,7 +45,7 @@ HShapes == {
 \* chains: nesting along ALTERNATING item-valued terms, each node in one style (a decoder that visits a sub-document once per
 \* role it could play -- object and link, item and collection -- doubles its work per level: exponential in a 2 kB input)
 Chain(a, b, style, n) == [j |-> "chain", a |-> a, b |-> b, style |-> style, n |-> n]
-ChainStyles == {"typed", "typeless", "href", "link"}
+ChainStyles == {"typed", "typeless", "href", "link", "activity", "person", "collection"}
 ItemTermsOf(g) == {Props(g)[i].t : i \in {j \in 1..Len(Props(g)) : Props(g)[j].k \in {"item", "items"}}}
 AllItemTerms == UNION {ItemTermsOf(g) : g \in GoTypes}
 ChainPairTermsQuick == {"object", "url", "preview", "attachment", "tag", "items", "replies", "first"}
@@ -107,7 +108,8 @@ FollowOutcomes == {"ok", "error"}
 \* cost bounds per decode call, linear in the input length (bytes): milliseconds and allocated bytes
 MsBound(len) == 2000
 \* (a corrupted gob length prefix makes encoding/gob itself allocate tens of MB before it fails: not attributed to the library)
-AllocBound(len) == 128000000 + 4000 * len
+\* (in kB: TLC integers are 32-bit, a runaway allocation counted in bytes would wrap around and pass)
+AllocBoundKB(len) == 128000 + 4 * len
 
 -----------------------------------------------------------------------------
 CONSTANT Tier
